@@ -62,56 +62,53 @@ impl SerdeParser {
     /// Parse rename_all value like "camelCase", "snake_case", "PascalCase", etc. to
     /// find a matching `serde_rename_rule::RenameRule`.
     fn parse_rename_all(&self, tokens: &str) -> Option<RenameRule> {
-        if let Some(start) = tokens.find("rename_all") {
-            if let Some(eq_pos) = tokens[start..].find('=') {
-                let after_eq = &tokens[start + eq_pos + 1..].trim_start();
+        Self::written_value(tokens, "rename_all")
+            .and_then(|value| RenameRule::from_rename_all_str(value).ok())
+    }
 
-                // Extract value from quotes
-                if let Some(quote_start) = after_eq.find('"') {
-                    if let Some(quote_end) = after_eq[quote_start + 1..].find('"') {
-                        let value = &after_eq[quote_start + 1..quote_start + 1 + quote_end];
+    /// Parse rename value from field attribute
+    fn parse_rename(&self, tokens: &str) -> Option<String> {
+        Self::written_value(tokens, "rename").map(|value| value.to_string())
+    }
 
-                        return RenameRule::from_rename_all_str(value).ok();
-                    }
-                }
+    /// The name serde *writes* for `key`: the value of `key = "v"`, or the `serialize` entry of
+    /// `key(serialize = "v", deserialize = "w")`. When only `deserialize` is given, serialization
+    /// is not renamed and the result is `None`.
+    fn written_value<'a>(tokens: &'a str, key: &str) -> Option<&'a str> {
+        let rest = Self::find_key(tokens, key)?;
+        if let Some(group) = rest.strip_prefix('(') {
+            let group = &group[..group.find(')').unwrap_or(group.len())];
+            Self::first_quoted(Self::find_key(group, "serialize")?.strip_prefix('=')?)
+        } else {
+            Self::first_quoted(rest.strip_prefix('=')?)
+        }
+    }
+
+    /// Find `key` used as a whole attribute key: not part of a longer identifier
+    /// (`rename` in `rename_all`, `rename_all` in `rename_all_fields`, `serialize` in
+    /// `deserialize`) and followed by `=` or `(`. Returns the text starting at that `=` / `(`.
+    fn find_key<'a>(text: &'a str, key: &str) -> Option<&'a str> {
+        let is_ident = |c: char| c.is_ascii_alphanumeric() || c == '_';
+        let mut from = 0;
+        while let Some(pos) = text[from..].find(key) {
+            let at = from + pos;
+            from = at + key.len();
+            if text[..at].chars().next_back().is_some_and(is_ident) {
+                continue;
+            }
+            let rest = text[from..].trim_start_matches(' ');
+            if rest.starts_with('=') || rest.starts_with('(') {
+                return Some(rest);
             }
         }
         None
     }
 
-    /// Parse rename value from field attribute
-    fn parse_rename(&self, tokens: &str) -> Option<String> {
-        // Look for "rename" but not "rename_all"
-        let mut search_start = 0;
-        while let Some(pos) = tokens[search_start..].find("rename") {
-            let abs_pos = search_start + pos;
-
-            // Check if this is followed by "_all"
-            let after_rename = &tokens[abs_pos + 6..];
-            let trimmed = after_rename.trim_start();
-            if trimmed.starts_with("_all") {
-                // This is rename_all, skip it: restart just after the "_all" that was matched
-                // (white space may separate it from "rename" and need not be one byte wide)
-                search_start = tokens.len() - trimmed.len() + 4;
-                continue;
-            }
-
-            // This is a plain "rename", extract the value
-            if let Some(eq_pos) = after_rename.find('=') {
-                let after_eq = &after_rename[eq_pos + 1..].trim_start();
-
-                // Extract value from quotes
-                if let Some(quote_start) = after_eq.find('"') {
-                    if let Some(quote_end) = after_eq[quote_start + 1..].find('"') {
-                        let value = &after_eq[quote_start + 1..quote_start + 1 + quote_end];
-                        return Some(value.to_string());
-                    }
-                }
-            }
-
-            break;
-        }
-        None
+    /// Text between the first two double quotes
+    fn first_quoted(text: &str) -> Option<&str> {
+        let start = text.find('"')? + 1;
+        let len = text[start..].find('"')?;
+        Some(&text[start..start + len])
     }
 }
 
